@@ -123,18 +123,21 @@ func C07(c *run.Check) {
 	})
 	// translate(s,f,t)
 	trAlpha := []string{"a", "b", "c", "é"}
-	trStrs := c07Strings(trAlpha, 2)
+	trS := c07Strings(trAlpha, 2)
+	trFT := c07Strings(trAlpha[:3], 3) // second/third argument: repeats followed by new characters need length 3
 	if !c.Quick() {
-		trStrs = c07Strings(trAlpha, 3)
+		trS = c07Strings(trAlpha, 3)
+		trFT = c07Strings(trAlpha, 3)
 	}
+	trStrs := trFT
 	tr := mustParse([]string{"translate($s,$f,$t)"})[0]
-	m := len(trStrs)
-	run.ParallelW(m*m*m, func(w, i int) {
+	m := len(trFT)
+	run.ParallelW(len(trS)*m*m, func(w, i int) {
 		if !triage && c.Violations() > 0 {
 			return
 		}
 		c.Evaluations.Add(1)
-		if r.one(wk(w), "/", tr, []VarSpec{strVar("s", trStrs[i/(m*m)]), strVar("f", trStrs[(i/m)%m]), strVar("t", trStrs[i%m])}) && i%31 == 0 {
+		if r.one(wk(w), "/", tr, []VarSpec{strVar("s", trS[i/(m*m)]), strVar("f", trFT[(i/m)%m]), strVar("t", trFT[i%m])}) && i%31 == 0 {
 			c.Distinct(fmt.Sprintf("tr|%d", i))
 		}
 	})
